@@ -68,6 +68,12 @@ class GeomExpression(tuple):
             return GeomExpression((':', self[1].inverse(), self[2].inverse()))
         elif self[0] == ':':
             return GeomExpression(('*', self[1].inverse(), self[2].inverse()))
+        elif self[0] == '^':
+            # complement of a cell complement: ('^', cell, '^') denotes the
+            # region of the cell itself
+            if len(self) > 2:
+                return GeomExpression(('^', self[1]))
+            return GeomExpression(('^', self[1], '^'))
         else:
             return self[0].inverse()
 
